@@ -121,6 +121,9 @@ def run(ctx):
     n = 1800 if ctx.thorough() else 300
     if os.path.exists(os.path.join(core.COQ, "Props", "C16.v")):
         core.check_props(ctx, PROPS)
+        from vlib import ties2
+        # substitute_parameters regenerated from the source as a function of steps / inspections / parameters = the model's
+        ties2.run_flag(ctx, "--substitute", "Fun16.v", "Tie/C16.v")
     # syntactic ties regenerated from the working tree: stage order and the shape of the stage functions
     vskel.check(ctx, ("verify", "substitute"))
     open_known = [e for e in core.load_known("C16") if e.get("status") == "open" and e.get("id") == "D16"]
